@@ -311,8 +311,8 @@ class Run:
 
     def classify(self, record: dict):
         """Return the id of the open known finding whose signature matches, else None.
-        A signature is a dict of key -> value|list that must all match the record
-        (string values: substring match on the record's string)."""
+        A signature is a dict of key -> pattern | list of patterns (any) that must all match
+        the record's value for that key."""
         for f in self.findings.open_for(self.prop):
             sig = f.get("signature", {})
             ok = True
@@ -401,10 +401,15 @@ class Run:
 
 
 def _match(pat, val):
+    """pattern forms: scalar -> equality; {"contains": s} -> substring; {"regex": r} -> search."""
     if isinstance(val, (list, tuple, set)):
         return any(_match(pat, x) for x in val)
-    if isinstance(pat, str):
-        return pat in str(val)
+    if isinstance(pat, dict):
+        if "contains" in pat:
+            return pat["contains"] in str(val)
+        if "regex" in pat:
+            return re.search(pat["regex"], str(val)) is not None
+        return False
     return pat == val
 
 
